@@ -297,3 +297,21 @@ Proof.
   intros Hh. rewrite simp3_val by (intro E; apply Hh; lra).
   unfold P3, F3. field. repeat split; try assumption; intro E; apply Hh; lra.
 Qed.
+
+(* composite Simpson on unequal spacings has a negative weight once a spacing exceeds twice its neighbour:
+   the "squared norm" of a non-negative integrand can be negative (so its square root is NaN in floating point) *)
+Theorem simp3_last_weight_negative x0 x1 x2 y2 : 0 < x2 - x1 -> 2 * (x2 - x1) < x1 - x0 -> 0 < y2 ->
+  simp3R x0 x1 x2 0 0 y2 < 0.
+Proof.
+  intros H1 H2 Hy. rewrite simp3_val by lra.
+  assert (E : (x2 - x0) / 6 * (0 * (2 - (x2 - x1) / (x1 - x0)) + 0 * ((x2 - x0) * (x2 - x0) / ((x1 - x0) * (x2 - x1))) + y2 * (2 - (x1 - x0) / (x2 - x1)))
+              = - ((x2 - x0) / 6 * y2 * ((x1 - x0 - 2 * (x2 - x1)) / (x2 - x1)))) by (field; lra).
+  rewrite E. apply Ropp_lt_gt_0_contravar. apply Rmult_gt_0_compat.
+  - apply Rmult_gt_0_compat; lra.
+  - apply Rdiv_lt_0_compat; lra.
+Qed.
+Theorem simpson_weight_negative : simpsonR [0; 8; 9] [0; 0; 1] < 0.
+Proof.
+  rewrite simpson_general by (simpl; lia). cbn [length Nat.even simp_pairs]. 
+  cbn [oadd o0 opsR]. pose proof (simp3_last_weight_negative 0 8 9 1) as H. lra.
+Qed.
